@@ -106,72 +106,74 @@ theorem kvDelete_get (s : State) (i : Nat) (k : String) : tget (kvDelete s i k).
 
 /-- node cas: committed ⇔ the supplied index matches the registration stored under the request's
     NAME (whatever node ID the request carries) and `ensureNodeTxn` accepts the write -/
-theorem nodeCas_reported_iff_matched (s : State) (i : Nat) (n : String) (v : NodeVal) (c : Nat) :
-    (txn s i [.nodeCas n v c]).committed = true ↔
-      SetMatch (tget s.nodes n) c ∧ nodeRefused s n v = false := by
+theorem nodeCas_reported_iff_matched (s : State) (i : Nat) (v : NodeVal) (c : Nat) :
+    (txn s i [.nodeCas v c]).committed = true ↔
+      SetMatch (tget s.nodes (lc v.name)) c ∧ nodeRefused s v = false := by
   rw [← setCasFails_eq_false_iff, txn_single]
-  cases h : setCasFails (tget s.nodes n) c with
+  cases h : setCasFails (tget s.nodes (lc v.name)) c with
   | true => simp [tapply, nodeCas, h, Out.committed, Except.map]
   | false =>
-    cases hr : nodeRefused s n v with
-    | true => simp [tapply, nodeCas, h, nodeSet_refused s i n v hr, Out.committed, Except.map]
+    cases hr : nodeRefused s v with
+    | true => simp [tapply, nodeCas, h, nodeSet_refused s i v hr, Out.committed, Except.map]
     | false =>
-      obtain ⟨s', hs⟩ := nodeSet_ok s i n v hr
+      obtain ⟨s', hs⟩ := nodeSet_ok s i v hr
       simp [tapply, nodeCas, h, hs, Out.committed, Except.map]
 
 /-- an index that does not match the registration under the NAME is refused as stale and nothing
     changes — for every node ID the request may carry (own, another registration's, unknown, none) -/
-theorem nodeCas_stale_refused (s : State) (i : Nat) (n : String) (v : NodeVal) (c : Nat)
-    (h : ¬ SetMatch (tget s.nodes n) c) : txn s i [.nodeCas n v c] = ⟨s, .txnErr [(0, .stale)]⟩ := by
+theorem nodeCas_stale_refused (s : State) (i : Nat) (v : NodeVal) (c : Nat)
+    (h : ¬ SetMatch (tget s.nodes (lc v.name)) c) : txn s i [.nodeCas v c] = ⟨s, .txnErr [(0, .stale)]⟩ := by
   rw [← setCasFails_eq_true_iff] at h
   simp [txn_single, tapply, nodeCas, h, Except.map]
 
 /-- create-only (index 0) on a name that is registered is refused, whatever the request's node ID
     (the seeded regression C10-1 (a): comparison by ID let it overwrite the registration) -/
-theorem nodeCas_createOnly_on_present_refused (s : State) (i : Nat) (n : String) (v : NodeVal)
-    (e : Ver NodeVal) (h : tget s.nodes n = some e) :
-    txn s i [.nodeCas n v 0] = ⟨s, .txnErr [(0, .stale)]⟩ :=
-  nodeCas_stale_refused s i n v 0 (by simp [SetMatch, h])
+theorem nodeCas_createOnly_on_present_refused (s : State) (i : Nat) (v : NodeVal)
+    (e : Ver NodeVal) (h : tget s.nodes (lc v.name) = some e) :
+    txn s i [.nodeCas v 0] = ⟨s, .txnErr [(0, .stale)]⟩ :=
+  nodeCas_stale_refused s i v 0 (by simp [SetMatch, h])
 
 /-- a cas addressed at name `n` with another registration's node ID and that registration's index
     is judged against `n`'s own index (C10-1 (b)) -/
-theorem nodeCas_foreign_id_judged_by_name (s : State) (i : Nat) (n : String) (v : NodeVal) (c : Nat)
-    (e : Ver NodeVal) (h : tget s.nodes n = some e) (hc : c ≠ e.modify) :
-    txn s i [.nodeCas n v c] = ⟨s, .txnErr [(0, .stale)]⟩ :=
-  nodeCas_stale_refused s i n v c (by simp [SetMatch, h, hc])
+theorem nodeCas_foreign_id_judged_by_name (s : State) (i : Nat) (v : NodeVal) (c : Nat)
+    (e : Ver NodeVal) (h : tget s.nodes (lc v.name) = some e) (hc : c ≠ e.modify) :
+    txn s i [.nodeCas v c] = ⟨s, .txnErr [(0, .stale)]⟩ :=
+  nodeCas_stale_refused s i v c (by simp [SetMatch, h, hc])
 
 /-- not committed (no match, or the name is defended) ⇒ nothing changes -/
-theorem nodeCas_failed_unchanged (s : State) (i : Nat) (n : String) (v : NodeVal) (c : Nat)
-    (h : ¬ (SetMatch (tget s.nodes n) c ∧ nodeRefused s n v = false)) :
-    (txn s i [.nodeCas n v c]).state = s ∧ (txn s i [.nodeCas n v c]).committed = false := by
-  have hc : ¬ (txn s i [.nodeCas n v c]).committed = true :=
-    fun hh => h ((nodeCas_reported_iff_matched s i n v c).mp hh)
+theorem nodeCas_failed_unchanged (s : State) (i : Nat) (v : NodeVal) (c : Nat)
+    (h : ¬ (SetMatch (tget s.nodes (lc v.name)) c ∧ nodeRefused s v = false)) :
+    (txn s i [.nodeCas v c]).state = s ∧ (txn s i [.nodeCas v c]).committed = false := by
+  have hc : ¬ (txn s i [.nodeCas v c]).committed = true :=
+    fun hh => h ((nodeCas_reported_iff_matched s i v c).mp hh)
   refine ⟨?_, by simpa using hc⟩
   rw [txn_single] at hc ⊢
-  cases ht : tapply s i (.nodeCas n v c) with
+  cases ht : tapply s i (.nodeCas v c) with
   | ok x => simp [ht, Out.committed] at hc
   | error e => rfl
 
-theorem nodeCas_applied_effect (s : State) (i : Nat) (n : String) (v : NodeVal) (c : Nat)
-    (h : SetMatch (tget s.nodes n) c) (hr : nodeRefused s n v = false) :
-    ∃ s', nodeSet s i n v = .ok s' ∧ txn s i [.nodeCas n v c] = ⟨s', .txnOk (nodeRes s' n v.id)⟩ := by
+theorem nodeCas_applied_effect (s : State) (i : Nat) (v : NodeVal) (c : Nat)
+    (h : SetMatch (tget s.nodes (lc v.name)) c) (hr : nodeRefused s v = false) :
+    ∃ s', nodeSet s i v = .ok s' ∧ txn s i [.nodeCas v c] = ⟨s', .txnOk (nodeRes s' v)⟩ := by
   rw [← setCasFails_eq_false_iff] at h
-  obtain ⟨s', hs⟩ := nodeSet_ok s i n v hr
+  obtain ⟨s', hs⟩ := nodeSet_ok s i v hr
   exact ⟨s', hs, by simp [txn_single, tapply, nodeCas, h, hs, Except.map]⟩
 
-/-- what an accepted node write leaves under the name: the requested content (ID and address)
-    stamped with `i` — or nothing at all changed (identical registration already stored) -/
-theorem nodeSet_get (s s' : State) (i : Nat) (n : String) (v : NodeVal) (h : nodeSet s i n v = .ok s') :
-    s' = s ∨ ∃ c, tget s'.nodes n = some ⟨v, c, i⟩ := by
-  have byName : ∀ t, nodeSetByName s i n v = t → t = s ∨ ∃ c, tget t.nodes n = some ⟨v, c, i⟩ := by
+/-- what an accepted node write leaves under the (lower-cased) name: the requested registration
+    stamped with `i` — or nothing at all changed (same ID and address already stored) -/
+theorem nodeSet_get (s s' : State) (i : Nat) (v : NodeVal) (h : nodeSet s i v = .ok s') :
+    s' = s ∨ ∃ c, tget s'.nodes (lc v.name) = some ⟨v, c, i⟩ := by
+  have ins : ∀ (w : State) (c : Nat), tget (nodeInsert w i v c).nodes (lc v.name) = some ⟨v, c, i⟩ := by
+    intro w c; simp [nodeInsert]
+  have byName : ∀ t, nodeSetByName s i v = t → t = s ∨ ∃ c, tget t.nodes (lc v.name) = some ⟨v, c, i⟩ := by
     intro t ht
     unfold nodeSetByName at ht
-    cases hn : tget s.nodes n with
-    | none => simp [hn] at ht; subst ht; right; exact ⟨i, by simp⟩
+    cases hn : tget s.nodes (lc v.name) with
+    | none => simp only [hn] at ht; subst ht; right; exact ⟨i, ins s i⟩
     | some e =>
-      by_cases hv : e.val = v
+      by_cases hv : sameNode e.val v = true
       · simp [hn, hv] at ht; left; exact ht.symm
-      · simp [hn, hv] at ht; subst ht; right; exact ⟨e.create, by simp⟩
+      · simp only [hn, hv] at ht; subst ht; right; exact ⟨e.create, ins s e.create⟩
   unfold nodeSet at h
   by_cases hid : v.id = ""
   · simp [hid] at h; exact byName s' h
@@ -183,67 +185,69 @@ theorem nodeSet_get (s s' : State) (i : Nat) (n : String) (v : NodeVal) (h : nod
       · simp at h
       · simp at h; exact byName s' h
     | some x =>
-      obtain ⟨oldName, e⟩ := x
+      obtain ⟨oldKey, e⟩ := x
       simp only [hb] at h
-      by_cases hn : oldName = n
-      · by_cases hv : e.val = v
+      by_cases hn : oldKey = lc v.name
+      · by_cases hv : sameNode e.val v = true
         · simp [hn, hv] at h; left; exact h.symm
-        · simp [hn, hv] at h; subst h; right; exact ⟨e.create, by simp⟩
+        · simp [hn, hv] at h; subst h; right; exact ⟨e.create, ins s e.create⟩
       · simp only [hn, not_false_eq_true, if_true] at h
         split at h
         · simp at h
-        · simp at h; subst h; right; exact ⟨e.create, by simp⟩
+        · simp at h; subst h; right; exact ⟨e.create, ins _ e.create⟩
 
-/-- without a node ID the write is by name only, exactly as for every other keyed entity -/
-theorem nodeSet_noid_get (s : State) (i : Nat) (n addr : String) :
-    ∃ s', nodeSet s i n ⟨"", addr⟩ = .ok s' ∧
-      tget s'.nodes n =
-        match tget s.nodes n with
-        | some e => if e.val = ⟨"", addr⟩ then some e else some ⟨⟨"", addr⟩, e.create, i⟩
-        | none => some ⟨⟨"", addr⟩, i, i⟩ := by
-  refine ⟨nodeSetByName s i n ⟨"", addr⟩, by simp [nodeSet], ?_⟩
-  cases h : tget s.nodes n with
-  | none => simp [nodeSetByName, h]
-  | some e => by_cases hv : e.val = ⟨"", addr⟩ <;> simp [nodeSetByName, h, hv]
+/-- every index-table entry a node write raises carries exactly the raft index of the write -/
+theorem nodeInsert_index (w : State) (i : Nat) (v : NodeVal) (c : Nat) :
+    (nodeInsert w i v c).idx = ixServicesOfNode w.svcs (ixNode (ixNodes w.idx i) v.name i) (lc v.name) i := rfl
 
 /-- node delete-cas: committed ⇔ the node exists with exactly that ModifyIndex -/
 theorem nodeDeleteCas_reported_iff_matched (s : State) (i : Nat) (n : String) (c : Nat) :
-    (txn s i [.nodeDeleteCas n c]).committed = true ↔ DelMatch (tget s.nodes n) c := by
+    (txn s i [.nodeDeleteCas n c]).committed = true ↔ DelMatch (tget s.nodes (lc n)) c := by
   unfold DelMatch
-  cases h : tget s.nodes n with
+  cases h : tget s.nodes (lc n) with
   | none => simp [txn, txnLoop, tapply, nodeDeleteCas, h, Out.committed, Except.map]
   | some e => by_cases hm : e.modify = c <;>
       simp [txn, txnLoop, tapply, nodeDeleteCas, h, hm, Out.committed, Except.map]
 
 theorem nodeDeleteCas_failed_unchanged (s : State) (i : Nat) (n : String) (c : Nat)
-    (hn : ¬ DelMatch (tget s.nodes n) c) : txn s i [.nodeDeleteCas n c] = ⟨s, .txnErr [(0, .stale)]⟩ := by
+    (hn : ¬ DelMatch (tget s.nodes (lc n)) c) : txn s i [.nodeDeleteCas n c] = ⟨s, .txnErr [(0, .stale)]⟩ := by
   unfold DelMatch at hn
-  cases h : tget s.nodes n with
+  cases h : tget s.nodes (lc n) with
   | none => simp [txn, txnLoop, tapply, nodeDeleteCas, h, Except.map]
   | some e => simp [h] at hn; simp [txn, txnLoop, tapply, nodeDeleteCas, h, hn, Except.map]
 
 theorem nodeDeleteCas_applied_effect (s : State) (i : Nat) (n : String) (c : Nat)
-    (hn : DelMatch (tget s.nodes n) c) : txn s i [.nodeDeleteCas n c] = ⟨nodeDelete s n, .txnOk []⟩ := by
+    (hn : DelMatch (tget s.nodes (lc n)) c) : txn s i [.nodeDeleteCas n c] = ⟨nodeDelete s i n, .txnOk []⟩ := by
   unfold DelMatch at hn
-  cases h : tget s.nodes n with
+  cases h : tget s.nodes (lc n) with
   | none => simp [h] at hn
   | some e => simp [h] at hn; simp [txn, txnLoop, tapply, nodeDeleteCas, h, hn, Except.map]
 
-/-- the delete cascades: node, its services and its checks are gone -/
-theorem nodeDelete_effect (s : State) (n : String) (e : Ver NodeVal) (h : tget s.nodes n = some e) :
-    tget (nodeDelete s n).nodes n = none ∧
-    (∀ p ∈ (nodeDelete s n).svcs, p.1.1 ≠ n) ∧ (∀ p ∈ (nodeDelete s n).chks, p.1.1 ≠ n) := by
-  simp [nodeDelete, h]
+/-- the delete cascades: the node, its services and its checks are gone -/
+theorem nodeDelete_effect (s : State) (i : Nat) (n : String) (e : Ver NodeVal) (h : tget s.nodes (lc n) = some e) :
+    tget (nodeDelete s i n).nodes (lc n) = none ∧
+    (∀ p ∈ (nodeDelete s i n).svcs, p.1.1 ≠ lc n) ∧ (∀ p ∈ (nodeDelete s i n).chks, p.1.1 ≠ lc n) := by
+  simp only [nodeDelete, h, List.foldl_map]
+  refine ⟨?_, ?_, ?_⟩
+  · simp [(foldl_chkDelete _ _ _ i n).1, (foldl_svcDelete _ _ _ i n).1]
+  · intro p hp hk
+    simp only [(foldl_chkDelete _ _ _ i n).2.1, (foldl_svcDelete _ _ _ i n).2] at hp
+    have := mem_foldl_tdel (fun y : (String × String) × Ver Nat => (lc n, y.1.2)) _ _ p hp
+    exact this.2 p (by simp [this.1, hk]) (by rw [← hk])
+  · intro p hp hk
+    simp only [(foldl_chkDelete _ _ _ i n).2.2] at hp
+    have := mem_foldl_tdel (fun y : (String × String) × Ver ChkVal => (lc n, y.1.2)) _ _ p hp
+    exact this.2 p (by simp [this.1, hk]) (by rw [← hk])
 
 /-- service cas: committed ⇔ matched and the node is registered (`ErrMissingNode` otherwise) -/
 theorem serviceCas_reported_iff_matched (s : State) (i : Nat) (n id : String) (p c : Nat) :
     (txn s i [.svcCas n id p c]).committed = true ↔
-      SetMatch (tget s.svcs (n, id)) c ∧ (tget s.nodes n).isSome := by
+      SetMatch (tget s.svcs (lc n, id)) c ∧ (tget s.nodes (lc n)).isSome := by
   rw [← setCasFails_eq_false_iff, txn_single]
-  cases h : setCasFails (tget s.svcs (n, id)) c with
+  cases h : setCasFails (tget s.svcs (lc n, id)) c with
   | true => simp [tapply, svcCas, h, Out.committed, Except.map]
   | false =>
-    cases hn : tget s.nodes n with
+    cases hn : tget s.nodes (lc n) with
     | none => simp [tapply, svcCas, h, svcSet_missing _ _ _ _ _ hn, Out.committed, Except.map]
     | some e =>
       obtain ⟨s', hs⟩ := svcSet_ok s i n id p (by simp [hn])
@@ -251,7 +255,7 @@ theorem serviceCas_reported_iff_matched (s : State) (i : Nat) (n id : String) (p
 
 /-- a service cas that is not committed (no match, or node missing) changes nothing -/
 theorem serviceCas_failed_unchanged (s : State) (i : Nat) (n id : String) (p c : Nat)
-    (h : ¬ (SetMatch (tget s.svcs (n, id)) c ∧ (tget s.nodes n).isSome)) :
+    (h : ¬ (SetMatch (tget s.svcs (lc n, id)) c ∧ (tget s.nodes (lc n)).isSome)) :
     (txn s i [.svcCas n id p c]).state = s ∧ (txn s i [.svcCas n id p c]).committed = false := by
   have hc : ¬ (txn s i [.svcCas n id p c]).committed = true :=
     fun hh => h ((serviceCas_reported_iff_matched s i n id p c).mp hh)
@@ -262,46 +266,47 @@ theorem serviceCas_failed_unchanged (s : State) (i : Nat) (n id : String) (p c :
   | error e => rfl
 
 theorem serviceCas_applied_effect (s : State) (i : Nat) (n id : String) (p c : Nat)
-    (h : SetMatch (tget s.svcs (n, id)) c) (hn : (tget s.nodes n).isSome) :
+    (h : SetMatch (tget s.svcs (lc n, id)) c) (hn : (tget s.nodes (lc n)).isSome) :
     ∃ s', svcSet s i n id p = .ok s' ∧ txn s i [.svcCas n id p c] = ⟨s', .txnOk (svcRes s' n id)⟩ := by
   rw [← setCasFails_eq_false_iff] at h
   obtain ⟨s', hs⟩ := svcSet_ok s i n id p hn
   exact ⟨s', hs, by simp [txn_single, tapply, svcCas, h, hs, Except.map]⟩
 
 theorem svcSet_get (s s' : State) (i : Nat) (n id : String) (p : Nat) (h : svcSet s i n id p = .ok s') :
-    tget s'.svcs (n, id) =
-      match tget s.svcs (n, id) with
+    tget s'.svcs (lc n, id) =
+      match tget s.svcs (lc n, id) with
       | some e => if e.val = p then some e else some ⟨p, e.create, i⟩
       | none => some ⟨p, i, i⟩ := by
-  cases hn : tget s.nodes n with
+  cases hn : tget s.nodes (lc n) with
   | none => simp [svcSet, hn] at h
   | some x =>
-    cases hs : tget s.svcs (n, id) with
-    | none => simp [svcSet, hn, hs] at h; subst h; simp
+    by_cases hk : id ∈ s.ksn <;>
+    cases hs : tget s.svcs (lc n, id) with
+    | none => simp [svcSet, hn, hs, hk] at h; subst h; simp
     | some e =>
       by_cases hv : e.val = p
-      · simp [svcSet, hn, hs, hv] at h; subst h; simp [hs, hv]
-      · simp [svcSet, hn, hs, hv] at h; subst h; simp [hv]
+      · simp [svcSet, hn, hs, hv, hk] at h; subst h; simp [hs, hv]
+      · simp [svcSet, hn, hs, hv, hk] at h; subst h; simp [hv]
 
 theorem serviceDeleteCas_reported_iff_matched (s : State) (i : Nat) (n id : String) (c : Nat) :
-    (txn s i [.svcDeleteCas n id c]).committed = true ↔ DelMatch (tget s.svcs (n, id)) c := by
+    (txn s i [.svcDeleteCas n id c]).committed = true ↔ DelMatch (tget s.svcs (lc n, id)) c := by
   unfold DelMatch
-  cases h : tget s.svcs (n, id) with
+  cases h : tget s.svcs (lc n, id) with
   | none => simp [txn, txnLoop, tapply, svcDeleteCas, h, Out.committed, Except.map]
   | some e => by_cases hm : e.modify = c <;>
       simp [txn, txnLoop, tapply, svcDeleteCas, h, hm, Out.committed, Except.map]
 
 theorem serviceDeleteCas_failed_unchanged (s : State) (i : Nat) (n id : String) (c : Nat)
-    (hn : ¬ DelMatch (tget s.svcs (n, id)) c) : txn s i [.svcDeleteCas n id c] = ⟨s, .txnErr [(0, .stale)]⟩ := by
+    (hn : ¬ DelMatch (tget s.svcs (lc n, id)) c) : txn s i [.svcDeleteCas n id c] = ⟨s, .txnErr [(0, .stale)]⟩ := by
   unfold DelMatch at hn
-  cases h : tget s.svcs (n, id) with
+  cases h : tget s.svcs (lc n, id) with
   | none => simp [txn, txnLoop, tapply, svcDeleteCas, h, Except.map]
   | some e => simp [h] at hn; simp [txn, txnLoop, tapply, svcDeleteCas, h, hn, Except.map]
 
 theorem serviceDeleteCas_applied_effect (s : State) (i : Nat) (n id : String) (c : Nat)
-    (hn : DelMatch (tget s.svcs (n, id)) c) : txn s i [.svcDeleteCas n id c] = ⟨svcDelete s n id, .txnOk []⟩ := by
+    (hn : DelMatch (tget s.svcs (lc n, id)) c) : txn s i [.svcDeleteCas n id c] = ⟨svcDelete s i n id, .txnOk []⟩ := by
   unfold DelMatch at hn
-  cases h : tget s.svcs (n, id) with
+  cases h : tget s.svcs (lc n, id) with
   | none => simp [h] at hn
   | some e => simp [h] at hn; simp [txn, txnLoop, tapply, svcDeleteCas, h, hn, Except.map]
 
@@ -312,9 +317,9 @@ written; witness `txn {} 5 [check cas n1/c1 index 0]`) -/
 
 /-- check cas: committed ⇔ matched and the prerequisites exist (node; bound service) -/
 theorem checkCas_reported_iff_matched (s : State) (i : Nat) (n id : String) (v : ChkVal) (c : Nat) :
-    (txn s i [.chkCas n id v c]).committed = true ↔ SetMatch (tget s.chks (n, id)) c ∧ ChkAdm s n v := by
+    (txn s i [.chkCas n id v c]).committed = true ↔ SetMatch (tget s.chks (lc n, id)) c ∧ ChkAdm s n v := by
   rw [← setCasFails_eq_false_iff, txn_single]
-  cases h : setCasFails (tget s.chks (n, id)) c with
+  cases h : setCasFails (tget s.chks (lc n, id)) c with
   | true => simp [tapply, chkCas, h, Out.committed, Except.map]
   | false =>
     by_cases ha : ChkAdm s n v
@@ -325,7 +330,7 @@ theorem checkCas_reported_iff_matched (s : State) (i : Nat) (n id : String) (v :
 
 /-- a check cas that is not committed (no match, or a prerequisite missing) changes nothing -/
 theorem checkCas_failed_unchanged (s : State) (i : Nat) (n id : String) (v : ChkVal) (c : Nat)
-    (h : ¬ (SetMatch (tget s.chks (n, id)) c ∧ ChkAdm s n v)) :
+    (h : ¬ (SetMatch (tget s.chks (lc n, id)) c ∧ ChkAdm s n v)) :
     (txn s i [.chkCas n id v c]).state = s ∧ (txn s i [.chkCas n id v c]).committed = false := by
   have hc : ¬ (txn s i [.chkCas n id v c]).committed = true :=
     fun hh => h ((checkCas_reported_iff_matched s i n id v c).mp hh)
@@ -337,29 +342,29 @@ theorem checkCas_failed_unchanged (s : State) (i : Nat) (n id : String) (v : Chk
 
 /-- the former defect's witness, now answered with the error and an untouched store -/
 theorem checkCas_missing_node_example :
-    txn {} 5 [.chkCas "n1" "c1" ⟨"", "out"⟩ 0] = ⟨{}, .txnErr [(0, .missingNode)]⟩ := by
+    txn {} 5 [.chkCas "n1" "c1" ⟨"", "out", "passing"⟩ 0] = ⟨{}, .txnErr [(0, .missingNode)]⟩ := by
   simp [txn, txnLoop, tapply, chkCas, setCasFails, chkSet, tget, Except.map]
 
 theorem checkCas_applied_effect (s : State) (i : Nat) (n id : String) (v : ChkVal) (c : Nat)
-    (h : SetMatch (tget s.chks (n, id)) c) (ha : ChkAdm s n v) :
+    (h : SetMatch (tget s.chks (lc n, id)) c) (ha : ChkAdm s n v) :
     ∃ s', chkSet s i n id v = .ok s' ∧ txn s i [.chkCas n id v c] = ⟨s', .txnOk (chkRes s' n id)⟩ := by
   rw [← setCasFails_eq_false_iff] at h
   obtain ⟨s', hs⟩ := chkSet_ok s i n id v ha
   exact ⟨s', hs, by simp [txn_single, tapply, chkCas, h, hs, Except.map]⟩
 
 theorem chkSet_get (s s' : State) (i : Nat) (n id : String) (v : ChkVal) (h : chkSet s i n id v = .ok s') :
-    tget s'.chks (n, id) =
-      match tget s.chks (n, id) with
+    tget s'.chks (lc n, id) =
+      match tget s.chks (lc n, id) with
       | some e => if e.val = v then some e else some ⟨v, e.create, i⟩
       | none => some ⟨v, i, i⟩ := by
   unfold chkSet at h
-  cases hn : tget s.nodes n with
+  cases hn : tget s.nodes (lc n) with
   | none => simp [hn] at h
   | some x =>
     simp only [hn] at h
     split at h
     · simp at h
-    · cases hs : tget s.chks (n, id) with
+    · cases hs : tget s.chks (lc n, id) with
       | none => simp [hs] at h; subst h; simp
       | some e =>
         by_cases hv : e.val = v
@@ -367,24 +372,24 @@ theorem chkSet_get (s s' : State) (i : Nat) (n id : String) (v : ChkVal) (h : ch
         · simp [hs, hv] at h; subst h; simp [hv]
 
 theorem checkDeleteCas_reported_iff_matched (s : State) (i : Nat) (n id : String) (c : Nat) :
-    (txn s i [.chkDeleteCas n id c]).committed = true ↔ DelMatch (tget s.chks (n, id)) c := by
+    (txn s i [.chkDeleteCas n id c]).committed = true ↔ DelMatch (tget s.chks (lc n, id)) c := by
   unfold DelMatch
-  cases h : tget s.chks (n, id) with
+  cases h : tget s.chks (lc n, id) with
   | none => simp [txn_single, tapply, chkDeleteCas, h, Out.committed, Except.map]
   | some e => by_cases hm : e.modify = c <;>
       simp [txn_single, tapply, chkDeleteCas, h, hm, Out.committed, Except.map]
 
 theorem checkDeleteCas_failed_unchanged (s : State) (i : Nat) (n id : String) (c : Nat)
-    (hn : ¬ DelMatch (tget s.chks (n, id)) c) : txn s i [.chkDeleteCas n id c] = ⟨s, .txnErr [(0, .stale)]⟩ := by
+    (hn : ¬ DelMatch (tget s.chks (lc n, id)) c) : txn s i [.chkDeleteCas n id c] = ⟨s, .txnErr [(0, .stale)]⟩ := by
   unfold DelMatch at hn
-  cases h : tget s.chks (n, id) with
+  cases h : tget s.chks (lc n, id) with
   | none => simp [txn_single, tapply, chkDeleteCas, h, Except.map]
   | some e => simp [h] at hn; simp [txn_single, tapply, chkDeleteCas, h, hn, Except.map]
 
 theorem checkDeleteCas_applied_effect (s : State) (i : Nat) (n id : String) (c : Nat)
-    (hn : DelMatch (tget s.chks (n, id)) c) : txn s i [.chkDeleteCas n id c] = ⟨chkDelete s n id, .txnOk []⟩ := by
+    (hn : DelMatch (tget s.chks (lc n, id)) c) : txn s i [.chkDeleteCas n id c] = ⟨chkDelete s i n id, .txnOk []⟩ := by
   unfold DelMatch at hn
-  cases h : tget s.chks (n, id) with
+  cases h : tget s.chks (lc n, id) with
   | none => simp [h] at hn
   | some e => simp [h] at hn; simp [txn_single, tapply, chkDeleteCas, h, hn, Except.map]
 
@@ -392,28 +397,53 @@ theorem checkDeleteCas_applied_effect (s : State) (i : Nat) (n id : String) (c :
 (`st = false` is the plain upsert, `st = true` the upsert-with-status) -/
 
 theorem configCas_reported_iff_matched (s : State) (i : Nat) (st : Bool) (k : String × String) (v : CfgVal) (c : Nat) :
-    (cfgCas s i st k v c).reported = true ↔ SetMatch (tget s.cfgs k) c := by
+    (cfgCas s i st k v c).reported = true ↔ SetMatch (tget s.cfgs k) c ∧ cfgRefused s k v = none := by
   rw [← setCasFails_eq_false_iff]
-  unfold cfgCas Out.reported
-  cases setCasFails (tget s.cfgs k) c <;> simp
+  unfold cfgCas Out.reported cfgEnsure
+  cases setCasFails (tget s.cfgs k) c <;> cases cfgRefused s k v <;> simp
 
+/-- no match, or a refused entry (gateway name clash, permissive mutual TLS without the mesh
+    entry's consent, splitter on a tcp service): nothing changes and success is not reported -/
 theorem configCas_failed_unchanged (s : State) (i : Nat) (st : Bool) (k : String × String) (v : CfgVal) (c : Nat)
-    (h : ¬ SetMatch (tget s.cfgs k) c) : cfgCas s i st k v c = ⟨s, .ok false⟩ := by
-  rw [← setCasFails_eq_true_iff] at h
-  simp [cfgCas, h]
+    (h : ¬ (SetMatch (tget s.cfgs k) c ∧ cfgRefused s k v = none)) :
+    (cfgCas s i st k v c).state = s ∧ (cfgCas s i st k v c).reported = false := by
+  rw [← setCasFails_eq_false_iff] at h
+  unfold cfgCas Out.reported cfgEnsure
+  cases hm : setCasFails (tget s.cfgs k) c <;> cases hr : cfgRefused s k v <;> simp_all
+
+/-- a matching but inadmissible cas answers with the validation error, never with `true` -/
+theorem configCas_inadmissible (s : State) (i : Nat) (st : Bool) (k : String × String) (v : CfgVal) (c : Nat)
+    (h : SetMatch (tget s.cfgs k) c) (e : Err) (hr : cfgRefused s k v = some e) :
+    cfgCas s i st k v c = ⟨s, .err e⟩ := by
+  rw [← setCasFails_eq_false_iff] at h
+  simp [cfgCas, cfgEnsure, h, hr]
 
 theorem configCas_applied_effect (s : State) (i : Nat) (st : Bool) (k : String × String) (v : CfgVal) (c : Nat)
-    (h : SetMatch (tget s.cfgs k) c) : cfgCas s i st k v c = ⟨cfgEnsure s i st k v, .ok true⟩ := by
+    (h : SetMatch (tget s.cfgs k) c) (hr : cfgRefused s k v = none) :
+    cfgCas s i st k v c = ⟨cfgWrite s i st k v, .ok true⟩ := by
   rw [← setCasFails_eq_false_iff] at h
-  simp [cfgCas, h]
+  simp [cfgCas, cfgEnsure, h, hr]
 
 /-- the upsert always stamps ModifyIndex = i and inherits CreateIndex -/
-theorem cfgEnsure_get (s : State) (i : Nat) (st : Bool) (k : String × String) (v : CfgVal) :
-    tget (cfgEnsure s i st k v).cfgs k =
-      some (stamp (tget s.cfgs k) i ⟨v.val, cfgStatus (tget s.cfgs k) st k.1 v⟩) := by
-  simp [cfgEnsure]
+theorem cfgWrite_get (s : State) (i : Nat) (st : Bool) (k : String × String) (v : CfgVal) :
+    tget (cfgWrite s i st k v).cfgs k =
+      some (stamp (tget s.cfgs k) i ⟨v.val, cfgStatus (tget s.cfgs k) st k.1 v, v.flag⟩) := by
+  simp [cfgWrite]
 
-/-- only the status-cas (or an uncontrolled kind) stores the caller's status … -/
+/-- the admission rules, spelled out for the generated kinds -/
+theorem cfgRefused_gateway_clash (s : State) (name : String) (v : CfgVal) (e : Ver CfgVal)
+    (h : tget s.cfgs ("terminating-gateway", name) = some e) :
+    cfgRefused s ("ingress-gateway", name) v = some .cfgGatewayClash := by
+  simp [cfgRefused, h]
+
+theorem cfgRefused_permissive (s : State) (name : String) (v : CfgVal) (hf : v.flag = true)
+    (hold : ∀ e, tget s.cfgs ("service-defaults", name) = some e → e.val.flag = false)
+    (hmesh : meshAllowsPermissive s.cfgs = false) :
+    cfgRefused s ("service-defaults", name) v = some .cfgMtls := by
+  cases ho : tget s.cfgs ("service-defaults", name) with
+  | none => simp [cfgRefused, ho, hf, hmesh]
+  | some e => simp [cfgRefused, ho, hf, hmesh, hold e ho]
+
 theorem cfgStatus_update (old : Cell CfgVal) (kind : String) (v : CfgVal) :
     cfgStatus old true kind v = v.status := by
   unfold cfgStatus; split <;> simp
@@ -726,6 +756,151 @@ theorem txn_committed_iff_no_error (s : State) (i : Nat) (ops : List TOp) :
   simp only [txn, Out.committed]
   by_cases h : (txnLoop s i 0 ops).2.2 = [] <;> simp [h]
 
+/-! ### every operation of a transaction is judged in the state the earlier operations left -/
+
+/-- the working state in which the operation at position `p` of `ops` runs (`txnDispatch`:
+    a refused operation leaves the working state as it was and the loop goes on) -/
+def txnPre (w : State) (i : Nat) : List TOp → Nat → State
+  | [], _ => w
+  | _ :: _, 0 => w
+  | op :: ops, p + 1 =>
+    match tapply w i op with
+    | .ok (w', _) => txnPre w' i ops p
+    | .error _ => txnPre w i ops p
+
+/-- when a transaction verb is accepted in working state `w`: the conditional verbs need their
+    index to match the row as it is in `w`; every write needs its prerequisites -/
+def OpMatched (w : State) : TOp → Prop
+  | .kvSet _ _ | .kvDelete _ | .nodeDelete _ | .svcDelete _ _ | .chkDelete _ _ => True
+  | .kvCas k _ c => SetMatch (tget w.kvs k) c
+  | .kvDeleteCas k c => KvDelMatch (tget w.kvs k) c
+  | .nodeSet v => nodeRefused w v = false
+  | .nodeCas v c => SetMatch (tget w.nodes (lc v.name)) c ∧ nodeRefused w v = false
+  | .nodeDeleteCas n c => DelMatch (tget w.nodes (lc n)) c
+  | .svcSet n _ _ => (tget w.nodes (lc n)).isSome
+  | .svcCas n id _ c => SetMatch (tget w.svcs (lc n, id)) c ∧ (tget w.nodes (lc n)).isSome
+  | .svcDeleteCas n id c => DelMatch (tget w.svcs (lc n, id)) c
+  | .chkSet n _ v => ChkAdm w n v
+  | .chkCas n id v c => SetMatch (tget w.chks (lc n, id)) c ∧ ChkAdm w n v
+  | .chkDeleteCas n id c => DelMatch (tget w.chks (lc n, id)) c
+
+theorem committed_single_iff (w : State) (i : Nat) (op : TOp) :
+    (txn w i [op]).committed = true ↔ ∃ r, tapply w i op = .ok r := by
+  rw [txn_single]
+  cases h : tapply w i op <;> simp [Out.committed]
+
+/-- one operation is accepted exactly when it is matched (and admissible) in its working state -/
+theorem tapply_ok_iff (w : State) (i : Nat) (op : TOp) : (∃ r, tapply w i op = .ok r) ↔ OpMatched w op := by
+  cases op with
+  | kvSet k v => simp [tapply, OpMatched]
+  | kvDelete k => simp [tapply, OpMatched]
+  | nodeDelete n => simp [tapply, OpMatched]
+  | svcDelete n id => simp [tapply, OpMatched]
+  | chkDelete n id => simp [tapply, OpMatched]
+  | kvCas k v c =>
+    simp only [OpMatched, ← setCasFails_eq_false_iff]
+    cases h : setCasFails (tget w.kvs k) c <;> simp [tapply, kvCas, ofCas, h, Except.map]
+  | kvDeleteCas k c =>
+    simp only [OpMatched, KvDelMatch]
+    cases h : tget w.kvs k with
+    | none => simp [tapply, kvDeleteCas, ofCas, h, Except.map]
+    | some e => by_cases hm : e.modify = c <;> simp [tapply, kvDeleteCas, ofCas, h, hm, Except.map]
+  | nodeSet v =>
+    simp only [OpMatched]
+    cases hr : nodeRefused w v with
+    | true => simp [tapply, nodeSet_refused w i v hr, Except.map]
+    | false => obtain ⟨s', hs⟩ := nodeSet_ok w i v hr; simp [tapply, hs, Except.map]
+  | nodeCas v c => rw [← committed_single_iff]; exact nodeCas_reported_iff_matched w i v c
+  | nodeDeleteCas n c => rw [← committed_single_iff]; exact nodeDeleteCas_reported_iff_matched w i n c
+  | svcSet n id p =>
+    simp only [OpMatched]
+    cases hn : tget w.nodes (lc n) with
+    | none => simp [tapply, svcSet_missing w i n id p hn, Except.map]
+    | some e => obtain ⟨s', hs⟩ := svcSet_ok w i n id p (by simp [hn]); simp [tapply, hs, Except.map]
+  | svcCas n id p c => rw [← committed_single_iff]; exact serviceCas_reported_iff_matched w i n id p c
+  | svcDeleteCas n id c => rw [← committed_single_iff]; exact serviceDeleteCas_reported_iff_matched w i n id c
+  | chkSet n id v =>
+    simp only [OpMatched]
+    by_cases ha : ChkAdm w n v
+    · obtain ⟨s', hs⟩ := chkSet_ok w i n id v ha; simp [tapply, hs, ha, Except.map]
+    · obtain ⟨e, hs⟩ := chkSet_refused w i n id v ha; simp [tapply, hs, ha, Except.map]
+  | chkCas n id v c => rw [← committed_single_iff]; exact checkCas_reported_iff_matched w i n id v c
+  | chkDeleteCas n id c => rw [← committed_single_iff]; exact checkDeleteCas_reported_iff_matched w i n id c
+
+theorem txnLoop_err_ge (w : State) (i n : Nat) (ops : List TOp) (k : Nat) (e : Err)
+    (h : (k, e) ∈ (txnLoop w i n ops).2.2) : n ≤ k := by
+  induction ops generalizing w n with
+  | nil => simp [txnLoop] at h
+  | cons op ops ih =>
+    simp only [txnLoop] at h
+    cases ht : tapply w i op with
+    | ok x =>
+      obtain ⟨w', rs⟩ := x
+      simp only [ht] at h
+      have := ih w' (n + 1) h; omega
+    | error e0 =>
+      simp only [ht, List.mem_cons, Prod.mk.injEq] at h
+      cases h with
+      | inl h => omega
+      | inr h => have := ih w (n + 1) h; omega
+
+theorem txnLoop_op_error_iff (w : State) (i n : Nat) (ops : List TOp) (p : Nat) (op : TOp)
+    (h : ops[p]? = some op) :
+    (∀ e, (n + p, e) ∉ (txnLoop w i n ops).2.2) ↔ ∃ r, tapply (txnPre w i ops p) i op = .ok r := by
+  induction ops generalizing w n p with
+  | nil => simp at h
+  | cons op0 ops ih =>
+    cases p with
+    | zero =>
+      simp only [List.getElem?_cons_zero, Option.some.injEq] at h
+      subst h
+      simp only [txnPre, txnLoop, Nat.add_zero]
+      cases ht : tapply w i op0 with
+      | ok x =>
+        obtain ⟨w', rs⟩ := x
+        simp only [Except.ok.injEq, exists_eq', iff_true]
+        intro e he
+        have := txnLoop_err_ge w' i (n + 1) ops n e he
+        omega
+      | error e0 =>
+        simp only [reduceCtorEq, exists_false, iff_false]
+        intro hh
+        exact hh e0 (by simp)
+    | succ p =>
+      simp only [List.getElem?_cons_succ] at h
+      simp only [txnPre, txnLoop]
+      cases ht : tapply w i op0 with
+      | ok x =>
+        obtain ⟨w', rs⟩ := x
+        have := ih w' (n + 1) p h
+        simp only [show n + 1 + p = n + (p + 1) by omega] at this
+        simpa using this
+      | error e0 =>
+        have := ih w (n + 1) p h
+        simp only [show n + 1 + p = n + (p + 1) by omega] at this
+        simp only [List.mem_cons, Prod.mk.injEq, not_or, not_and]
+        constructor
+        · intro hh; exact this.mp (fun e => (hh e).2)
+        · intro hh e; exact ⟨fun hne => by omega, (this.mpr hh) e⟩
+
+/-- HEADLINE for multi-operation transactions: the operation at position `p` is reported as failed
+    (an entry `(p, _)` in `TxnResponse.Errors`) exactly when it is NOT matched in the working
+    state left by the operations before it — position-wise, for every transaction, state, index. -/
+theorem txn_op_reported_iff_matched (s : State) (i : Nat) (ops : List TOp) (p : Nat) (op : TOp)
+    (h : ops[p]? = some op) :
+    (∀ e, (p, e) ∉ (txnLoop s i 0 ops).2.2) ↔ OpMatched (txnPre s i ops p) op := by
+  have := txnLoop_op_error_iff s i 0 ops p op h
+  simp only [Nat.zero_add] at this
+  rw [this, tapply_ok_iff]
+
+/-- the second `cas` with the same index inside one transaction is judged against the row the
+    first one wrote: it is refused, and so is the whole transaction -/
+theorem txn_chain_example :
+    let s := kvSet {} 5 "a" ⟨"v", 0⟩
+    txn s 9 [.kvCas "a" ⟨"w", 0⟩ 5, .kvCas "a" ⟨"x", 0⟩ 5] = ⟨s, .txnErr [(1, .stale)]⟩ ∧
+    (txn s 9 [.kvCas "a" ⟨"w", 0⟩ 5, .kvCas "a" ⟨"x", 0⟩ 9]).committed = true := by
+  decide
+
 /-- conditional commands that answer with a boolean (everything except the token batch and txn) -/
 def Cmd.conditional : Cmd → Bool
   | .kvCas .. | .kvDeleteCas .. | .cfgCas .. | .cfgStatusCas .. | .cfgDeleteCas .. | .caCas ..
@@ -746,13 +921,13 @@ theorem conditional_not_reported_unchanged (s : State) (i : Nat) (c : Cmd) (hc :
     · simp [(kvDeleteCas_reported_iff_matched s i k c).mpr m] at h
     · simp [kvDeleteCas_failed_unchanged s i k c m]
   case cfgCas k v c =>
-    by_cases m : SetMatch (tget s.cfgs k) c
+    by_cases m : SetMatch (tget s.cfgs k) c ∧ cfgRefused s k v = none
     · simp [(configCas_reported_iff_matched s i false k v c).mpr m] at h
-    · simp [configCas_failed_unchanged s i false k v c m]
+    · exact (configCas_failed_unchanged s i false k v c m).1
   case cfgStatusCas k v c =>
-    by_cases m : SetMatch (tget s.cfgs k) c
+    by_cases m : SetMatch (tget s.cfgs k) c ∧ cfgRefused s k v = none
     · simp [(configCas_reported_iff_matched s i true k v c).mpr m] at h
-    · simp [configCas_failed_unchanged s i true k v c m]
+    · exact (configCas_failed_unchanged s i true k v c m).1
   case cfgDeleteCas k c =>
     by_cases m : DelMatch (tget s.cfgs k) c
     · simp [(configDeleteCas_reported_iff_matched s i k c).mpr m] at h
@@ -833,21 +1008,46 @@ theorem composite_example :
   simp [caRootsAndConfig, rootsCasTxn, ha, imaxIndex, iget, caConfigMismatch, rootsWrite]
   simp [exRoots]
 
-example : ChkAdm (nodeSetByName {} 3 "n1" ⟨"", "10.0.0.1"⟩) "n1" ⟨"", "out"⟩ ∧ ¬ ChkAdm {} "n1" ⟨"", "out"⟩ := by
-  simp [ChkAdm, nodeSetByName, tget, tput, tdel]
+example : ChkAdm (nodeSetByName {} 3 ⟨"n1", "", "10.0.0.1"⟩) "N1" ⟨"", "out", "passing"⟩ ∧
+    ¬ ChkAdm {} "n1" ⟨"", "out", "passing"⟩ := by
+  decide
 
 /-- two registrations: web (no ID, index 5) and db (ID A, index 7) -/
-def exNodes : State := { nodes := [("db", ⟨⟨"A", "10.0.0.2"⟩, 7, 7⟩), ("web", ⟨⟨"", "10.0.0.1"⟩, 5, 5⟩)] }
+def exNodes : State :=
+  { nodes := [("db", ⟨⟨"db", "A", "10.0.0.2"⟩, 7, 7⟩), ("web", ⟨⟨"web", "", "10.0.0.1"⟩, 5, 5⟩)] }
 
-/-- C10-1 (a): create-only cas on `web` carrying an unknown ID is refused;
-    (b): cas on `web` with db's ID and db's index is refused; with web's own index it is a rename
-    of db onto web (db disappears, the row keeps db's CreateIndex) -/
+/-- C10-1 (a): create-only cas on `web` carrying an unknown ID is refused — also under the
+    spelling `WEB`; (b): cas on `web` with db's ID and db's index is refused; with web's own index
+    it is a rename of db onto web (db disappears, the row keeps db's CreateIndex); a passing Serf
+    check defends the name, a critical one does not -/
 theorem nodeCas_id_examples :
-    txn exNodes 9 [.nodeCas "web" ⟨"X", "10.9.9.9"⟩ 0] = ⟨exNodes, .txnErr [(0, .stale)]⟩ ∧
-    txn exNodes 9 [.nodeCas "web" ⟨"A", "10.9.9.9"⟩ 7] = ⟨exNodes, .txnErr [(0, .stale)]⟩ ∧
-    (txn exNodes 9 [.nodeCas "web" ⟨"A", "10.9.9.9"⟩ 5]).state.nodes = [("web", ⟨⟨"A", "10.9.9.9"⟩, 7, 9⟩)] ∧
-    nodeRefused exNodes "web" ⟨"A", "x"⟩ = false ∧
-    nodeRefused { exNodes with chks := [(("web", "serfHealth"), ⟨⟨"", "ok"⟩, 6, 6⟩)] } "web" ⟨"A", "x"⟩ = true := by
+    txn exNodes 9 [.nodeCas ⟨"web", "X", "10.9.9.9"⟩ 0] = ⟨exNodes, .txnErr [(0, .stale)]⟩ ∧
+    txn exNodes 9 [.nodeCas ⟨"WEB", "X", "10.9.9.9"⟩ 0] = ⟨exNodes, .txnErr [(0, .stale)]⟩ ∧
+    txn exNodes 9 [.nodeCas ⟨"web", "A", "10.9.9.9"⟩ 7] = ⟨exNodes, .txnErr [(0, .stale)]⟩ ∧
+    (txn exNodes 9 [.nodeCas ⟨"web", "A", "10.9.9.9"⟩ 5]).state.nodes = [("web", ⟨⟨"web", "A", "10.9.9.9"⟩, 7, 9⟩)] ∧
+    nodeRefused exNodes ⟨"web", "A", "x"⟩ = false ∧
+    nodeRefused { exNodes with chks := [(("web", "serfHealth"), ⟨⟨"", "ok", "passing"⟩, 6, 6⟩)] } ⟨"web", "A", "x"⟩ = true ∧
+    nodeRefused { exNodes with chks := [(("web", "serfHealth"), ⟨⟨"", "ok", "critical"⟩, 6, 6⟩)] } ⟨"web", "A", "x"⟩ = false := by
+  decide
+
+/-- a failed node cas leaves every index-table entry alone; an applied one raises `nodes`,
+    `node.<name>` and the entries of the services registered on the node -/
+theorem nodeCas_index_example :
+    let s : State := { nodes := [("web", ⟨⟨"web", "", "a"⟩, 5, 5⟩)], svcs := [(("web", "api"), ⟨80, 6, 6⟩)]
+                       idx := [("nodes", 5), ("peer.~:node.web", 5), ("peer.~:service.api", 6)] }
+    (txn s 9 [.nodeCas ⟨"web", "", "b"⟩ 4]).state.idx = s.idx ∧
+    (txn s 9 [.nodeCas ⟨"web", "", "b"⟩ 5]).state.idx =
+      [("peer.~:service_kind.typical", 9), ("service_kind.typical", 9), ("peer.~:service.api", 9),
+       ("peer.~:node.web", 9), ("peer.~:nodes", 9), ("nodes", 9)] := by
+  decide
+
+/-- admission of config entries: clash, permissive mutual TLS, splitter -/
+example :
+    let s : State := { cfgs := [(("terminating-gateway", "gw"), ⟨⟨"1", "", false⟩, 4, 4⟩)] }
+    cfgCas s 9 false ("ingress-gateway", "gw") ⟨"1", "", false⟩ 0 = ⟨s, .err .cfgGatewayClash⟩ ∧
+    cfgCas s 9 false ("service-defaults", "web") ⟨"1", "", true⟩ 0 = ⟨s, .err .cfgMtls⟩ ∧
+    (cfgCas s 9 false ("service-defaults", "web") ⟨"1", "", false⟩ 0).res = .ok true ∧
+    cfgCas s 9 false ("service-splitter", "web") ⟨"1", "", false⟩ 0 = ⟨s, .err .cfgGraph⟩ := by
   decide
 
 example : FgMatch {} 0 0 ∧ FgAdm {} (some "gate") (some "d") ∧ ¬ FgAdm {} none (some "d") ∧ ¬ FgMatch {} 1 0 := by
